@@ -82,6 +82,11 @@ type e2eCase struct {
 	// NoFinalNL: the (single) file's last line has no terminator (single-file sessions only: with several
 	// sources an unterminated line legitimately runs into the next source's output)
 	NoFinalNL bool
+	// Procs: GOMAXPROCS of the process that hosts the server handler (0 = default): with one processor goroutines
+	// interleave very differently (and per-P caches such as sync.Pool are shared by everything)
+	Procs int
+	// Decoys: directories whose names match the glob and sort before the files (unreadable entries among the matches)
+	Decoys int
 }
 
 var lenClasses = []int{12, 60, 200, 1500}
@@ -156,6 +161,17 @@ func genE2E(t *rapid.T) e2eCase {
 	}
 	if c.Grep && rapid.IntRange(0, 3).Draw(t, "ctx") == 0 {
 		c.Before = rapid.IntRange(1, 3).Draw(t, "before")
+	}
+	c.Procs = rapid.SampledFrom([]int{0, 0, 1, 2}).Draw(t, "procs")
+	if rapid.Bool().Draw(t, "allcomp1") && rapid.Bool().Draw(t, "allcomp2") {
+		// every file in the same compressed format (readers of the same kind overlap)
+		comp := rapid.SampledFrom([]string{".gz", ".zst"}).Draw(t, "allcomp")
+		for i := range c.Files {
+			c.Files[i].Comp = comp
+		}
+	}
+	if c.Shape == "glob" && rapid.Bool().Draw(t, "decoys") {
+		c.Decoys = rapid.IntRange(1, 6).Draw(t, "ndecoys")
 	}
 	if rapid.Bool().Draw(t, "lr1") && rapid.Bool().Draw(t, "lr2") && rapid.Bool().Draw(t, "lr3") {
 		// a single file whose read lasts longer than the reader's 3 s housekeeping tick (truncation check), because the
@@ -334,6 +350,9 @@ func runE2E(c e2eCase, firstLook bool) (o lib.Outcome, timedOut bool) {
 		os.WriteFile(p, content, 0o644)
 		paths = append(paths, p)
 	}
+	for i := 0; i < c.Decoys && c.Shape == "glob"; i++ {
+		os.MkdirAll(filepath.Join(data, fmt.Sprintf("a%02d.log", i)), 0o755)
+	}
 	reps := 1
 	var what string
 	switch c.Shape {
@@ -384,7 +403,7 @@ func runE2E(c e2eCase, firstLook bool) (o lib.Outcome, timedOut bool) {
 		srv, err = lib.StartServer(lib.ServerOpts{Dir: filepath.Join(cdir, "server"), Label: "hostx",
 			Cfg:   lib.ServerCfg{MaxConcurrentCats: c.Cats},
 			Users: map[string][]string{"tester": {userKey.Authorized}},
-			Env:   []string{"VHOOK_TRACE=" + tracePath, "VHOOK_SCHED=" + schedStr}})
+			Env:   append([]string{"VHOOK_TRACE=" + tracePath, "VHOOK_SCHED=" + schedStr}, procsEnv(c.Procs)...)})
 		if err != nil {
 			return lib.Outcome{Inconclusive: "server start: " + err.Error()}, false
 		}
@@ -406,6 +425,7 @@ func runE2E(c e2eCase, firstLook bool) (o lib.Outcome, timedOut bool) {
 		lib.WriteCfg(cfg, lib.ServerCfg{MaxConcurrentCats: c.Cats})
 		args = append(args, "--cfg", cfg)
 		env = append(env, "VHOOK_TRACE="+tracePath, "VHOOK_SCHED="+schedStr)
+		env = append(env, procsEnv(c.Procs)...)
 	}
 	args = append(args, "--files", what)
 
@@ -438,6 +458,12 @@ func runE2E(c e2eCase, firstLook bool) (o lib.Outcome, timedOut bool) {
 	}
 	if c.NoFinalNL {
 		o.Classes = append(o.Classes, "unterminated-last-line")
+	}
+	if c.Procs > 0 {
+		o.Classes = append(o.Classes, fmt.Sprintf("GOMAXPROCS=%d", c.Procs))
+	}
+	if c.Decoys > 0 && c.Shape == "glob" {
+		o.Classes = append(o.Classes, "unreadable-entries-among-the-glob-matches")
 	}
 	if len(c.Files) == 1 && c.Files[0].Lines >= 1000 && len(c.Pace.Stalls) > 0 && c.Pace.Stalls[0].Ms >= 3500 && c.Pace.Stalls[0].At > 0 {
 		o.Classes = append(o.Classes, "read-longer-than-3s")
@@ -555,6 +581,13 @@ func runE2E(c e2eCase, firstLook bool) (o lib.Outcome, timedOut bool) {
 	return o, false
 }
 
+func procsEnv(n int) []string {
+	if n <= 0 {
+		return nil
+	}
+	return []string{fmt.Sprintf("GOMAXPROCS=%d", n)}
+}
+
 func sameSeq(want, got []int) string {
 	for i := 0; i < len(want) && i < len(got); i++ {
 		if want[i] != got[i] {
@@ -618,7 +651,7 @@ func tailS(s string, n int) string {
 	return s
 }
 
-const e2eRule = "real dcat / dgrep --plain (even-numbered lines, optionally --before), serverless or against a freshly started server process; 1..12 files with line counts around the queue capacities {0,1,2,99,100,101,199,200,201,1000,5000} and 12..1500-byte tagged lines, stored plain, gzip or zstd, a single file optionally without final newline; one glob, one command per file, or the same file twice; MaxConcurrentCats in {1,2,5}; consumer pacing: fast / uniformly slow / 1-3 stalls of 50 ms..5.6 s at a fraction of the stream or 0..3000000 bytes before its end, 64 B..64 KiB reads, 4 KiB or 64 KiB pipe; 0-2 hook-placed delays at the shutdown handshake, command loop and limiter. Oracle: per file the delivered tagged lines are exactly the selected lines, once, in order (two complete copies for a file requested twice); any other stdout line is a CLIENT|/SERVER| record; exit 0; the session ends within 60 s + 2 x pauses (a miss is re-examined with a fast consumer before it is reported). Multi-command sessions: in the clean space a hook await removes the known defect (server cannot know that more commands follow); in the free space a failure needs that defect's trace signature. Non-trivial = >=2 commands, or more files than limiter slots, or a paced consumer with > 200 selected lines"
+const e2eRule = "real dcat / dgrep --plain (even-numbered lines, optionally --before), serverless or against a freshly started server process; 1..12 files with line counts around the queue capacities {0,1,2,99,100,101,199,200,201,1000,5000} and 12..1500-byte tagged lines, stored plain, gzip or zstd, a single file optionally without final newline; one glob, one command per file, or the same file twice; MaxConcurrentCats in {1,2,5}; GOMAXPROCS default/1/2 for the process hosting the server handler; 0..6 directories among the glob's matches; consumer pacing: fast / uniformly slow / 1-3 stalls of 50 ms..5.6 s at a fraction of the stream or 0..3000000 bytes before its end, 64 B..64 KiB reads, 4 KiB or 64 KiB pipe; 0-2 hook-placed delays at the shutdown handshake, command loop and limiter. Oracle: per file the delivered tagged lines are exactly the selected lines, once, in order (two complete copies for a file requested twice); any other stdout line is a CLIENT|/SERVER| record; exit 0; the session ends within 60 s + 2 x pauses (a miss is re-examined with a fast consumer before it is reported). Multi-command sessions: in the clean space a hook await removes the known defect (server cannot know that more commands follow); in the free space a failure needs that defect's trace signature. Non-trivial = >=2 commands, or more files than limiter slots, or a paced consumer with > 200 selected lines"
 
 func TestC02E2E(t *testing.T) {
 	lib.Run(t, lib.Spec[e2eCase]{Prop: "C02", Check: "e2e", Rule: e2eRule, Gen: genE2E, Eval: evalE2E})
